@@ -94,8 +94,9 @@ static void wl_parse_ex(struct ctx *c)
 	json_object_put(o);
 	/* the parser must be reusable after the failure */
 	json_tokener_reset(tok);
-	o2 = json_tokener_parse_ex(tok, "[1,{\"a\":\"b\"}] ", 15);
-	if (!o2 || json_object_array_length(o2) != 2) bad(c, "parser-not-reusable-after-failure");
+	{ static const char again[] = "[1,{\"a\":\"b\"},\"a token of forty bytes..................\",\"and one of about a hundred bytes........................................................................\"] ";
+	  o2 = json_tokener_parse_ex(tok, again, (int)sizeof again - 1); }
+	if (!o2 || json_object_array_length(o2) != 4) bad(c, "parser-not-reusable-after-failure");
 	json_object_put(o2);
 	json_tokener_free(tok);
 }
@@ -114,7 +115,15 @@ static void wl_tokener_new(struct ctx *c)
 {
 	struct json_tokener *tok;
 	ARM(c); tok = c->param ? json_tokener_new_ex(c->param) : json_tokener_new(); DISARM(c);
-	if (!tok) c->failed = 1; else { struct json_object *o = json_tokener_parse_ex(tok, "[] ", 3); ob_printf(&c->res, "ok %d", o != NULL); json_object_put(o); }
+	if (!tok) c->failed = 1;
+	else {
+		/* a tokener that was handed out must have the depth it was asked for: a document nested one level less than the limit (at most 200) has to parse */
+		int d = (c->param ? c->param : 32) - 1, i; struct obuf doc = {0}; struct json_object *o;
+		if (d > 200) d = 200;
+		for (i = 0; i < d; i++) ob_putc(&doc, '['); ob_putc(&doc, '1'); for (i = 0; i < d; i++) ob_putc(&doc, ']');
+		o = json_tokener_parse_ex(tok, doc.b, (int)doc.n + 1);
+		ob_printf(&c->res, "ok %d err %d", o != NULL, (int)json_tokener_get_error(tok)); json_object_put(o); free(doc.b);
+	}
 	json_tokener_free(tok);
 }
 static void wl_chunked_parse(struct ctx *c)
